@@ -320,11 +320,49 @@ def check_reader_keeps_every_entry(ctx: Ctx) -> None:
     ctx.ob("12.5-every-entry", con, bool(ok), "an iteration of the loading loop can end without storing the entry" + (f" ({cfg.describe_path(esc)})" if esc else "") + ": points evaluated before the crash are missing from the reloaded database and are re-executed", node=(stores or [f])[0], stmt="every entry of the file is stored")
 
 
+def check_own_listeners_only(ctx: Ctx) -> None:
+    """12.7 a driver removes only the listeners it added: Database.clear_listeners takes an EMPTY collection for "all of
+    them", so a collection that may be empty (no KKT checker under the default settings...) silently removes the
+    listeners of others -- the scenario's backup callback stops being called and the file stays frozen while the
+    second execution runs."""
+    from gv.props.shared import literal_facts
+
+    n = 0
+    for rel, mod in sorted(ctx.index.modules.items()):
+        if not rel.startswith("algos/") or rel == "algos/database.py":
+            continue
+        for cn, c in sorted(mod.classes.items()):
+            for mname, m in sorted(c.methods.items()):
+                for call in (x for x in walk_body(m) if isinstance(x, ast.Call) and last_attr(x) == "clear_listeners" and isinstance(x.func, ast.Attribute) and (dotted(x.func.value) or "").endswith("database")):
+                    n += 1
+                    bound = dict(zip(("new_iter_listeners", "store_listeners"), call.args))
+                    bound.update({k.arg: k.value for k in call.keywords if k.arg})
+                    cfg = cfg_of(m)
+                    in_worker = any("SUBPROCESS_NAME" in k_ and v_ for k_, v_ in literal_facts(cfg, cfg.node_of(call)).items())
+                    bad = []
+                    for par in ("new_iter_listeners", "store_listeners"):
+                        a = bound.get(par)
+                        if a is None:
+                            if not in_worker:
+                                bad.append(f"{par} is left to its default (all the listeners)")
+                            continue
+                        if isinstance(a, ast.Constant) and a.value is None:
+                            continue  # none of that kind
+                        if isinstance(a, ast.BoolOp) and isinstance(a.op, ast.Or) and isinstance(a.values[-1], ast.Constant) and a.values[-1].value is None:
+                            continue  # `own or None`: nothing when the driver added nothing
+                        if isinstance(a, (ast.Set, ast.List, ast.Tuple)) and a.elts:
+                            continue  # a non-empty display
+                        bad.append(f"{par}={norm_stmt(a, 50)} may be empty, which means ALL the listeners")
+                    ctx.ob("12.7-own-listeners", cname(rel, cn, mname), not bad, "a driver must remove its own listeners only (" + "; ".join(bad) + "): the backup callback of the scenario is a listener too, and without it the evaluations of the next execution never reach the file", node=call, stmt="clear_listeners removes the driver's own listeners only")
+    ctx.floor("12.7-own-listeners", 2)
+
+
 def run(ctx: Ctx) -> None:
     check_reader_keeps_every_entry(ctx)
     check_backup_callback(ctx)
     store_protocol(ctx, "12.2", {"pending"})
     check_listeners(ctx)
+    check_own_listeners_only(ctx)
     check_backup_setup(ctx)
     # 12.6: a restarted DOE goes through every generated sample again: what is already stored is served by the
     # memoisation of each function (12.4), value by value, never by skipping the sample as a whole (an entry the crash
@@ -349,6 +387,8 @@ def run(ctx: Ctx) -> None:
 
 # ---------------------------------------------------------------------------
 WITNESSES = [
+    {"name": "driver-clears-a-possibly-empty-collection", "file": "algos/base_driver_library.py", "old": "            new_iter_listeners=self.__new_iter_listeners or None, store_listeners=None", "new": "            new_iter_listeners=self.__new_iter_listeners, store_listeners=None", "expect": "12.7"},
+    {"name": "driver-clears-all-store-listeners", "file": "algos/base_driver_library.py", "old": "            new_iter_listeners=self.__new_iter_listeners or None, store_listeners=None", "new": "            new_iter_listeners=self.__new_iter_listeners or None", "expect": "12.7"},
     {"name": "seeded-C12-6", "file": "algos/doe/base_doe_library.py", "old": "                )\n            for index, input_value in enumerate(self.samples):\n                try:\n", "new": "                )\n            database = problem.database\n            for index, input_value in enumerate(self.samples):\n                if use_database and database.get(input_value):\n                    # Already evaluated, e.g. loaded from a backup file.\n                    continue\n\n                try:\n", "expect": "12.6", "note": "Sequential DOE skips the samples that already have an entry in the database"},
     {"name": "reader-skips-entries-without-scalars", "file": HD, "old": "                else:\n                    scalar_dict = {}\n                scalar_dict.update(names_to_arrays)", "new": "                else:\n                    continue\n                scalar_dict.update(names_to_arrays)", "expect": "12.5"},
     {"name": "backup-rewrites-file", "file": BS, "old": "self.save_optimization_history(self._opt_hist_backup_path, append=True)", "new": "self.save_optimization_history(self._opt_hist_backup_path, append=False)", "expect": "12.1"},
